@@ -2,13 +2,13 @@
 from __future__ import annotations
 
 import ast
-from typing import List, Optional, Set
+from typing import Dict, List, Optional, Set
 
 from ..cfg import NORMAL, Node, handler_classes
 from ..core import Ctx
 from ..flow import ALL, find_path, names_in
 from ..model import AnalysisError, FunctionInfo, dotted, norm_text
-from .common import (edge_target, fold_str, handler_exits, handler_nodes, hint_value, hint_write_nodes, hint_writers,
+from .common import (code_branches, edge_target, fold_str, handler_exits, handler_nodes, hint_value, hint_write_nodes, hint_writers,
                      in_handler, kwarg, path_arg, reachable_from)
 
 EXPLANATION = (
@@ -176,6 +176,65 @@ def r2(ctx: Ctx) -> None:
                witness=[f"{f.file}:{n.lineno} {n.text}" for n in between] or None)
 
 
+PRECOND = ("IfMatch", "IfNoneMatch")
+
+
+def _dict_keys(e: ast.AST) -> Set[frozenset]:
+    """Possible precondition-key sets of a dict-valued expression ('?' = not understood)."""
+    if isinstance(e, ast.Dict):
+        ks = set()
+        for k in e.keys:
+            if k is None:
+                return {frozenset({"?"})}
+            if isinstance(k, ast.Constant) and k.value in PRECOND:
+                ks.add(k.value)
+        return {frozenset(ks)}
+    if isinstance(e, ast.IfExp):
+        return _dict_keys(e.body) | _dict_keys(e.orelse)
+    if isinstance(e, ast.Call) and isinstance(e.func, ast.Name) and e.func.id == "dict" and not e.args:
+        if any(k.arg is None for k in e.keywords):
+            return {frozenset({"?"})}
+        return {frozenset(k.arg for k in e.keywords if k.arg in PRECOND)}
+    return {frozenset({"?"})}
+
+
+def _kwargs_states(ctx: Ctx, f: FunctionInfo, var: str, at: int) -> Set[frozenset]:
+    """Forward may-analysis: the possible sets of precondition keys held by dict variable `var` on arrival at node `at`."""
+    g = ctx.cfg(f)
+    state: Dict[int, Set[frozenset]] = {g.entry: {frozenset({"?"})}}
+    work = [g.entry]
+    while work:
+        n = work.pop()
+        cur = state.get(n, set())
+        node = g.nodes[n]
+        out = cur
+        a = node.ast
+        if node.kind == "stmt" and isinstance(a, (ast.Assign, ast.AnnAssign)) and getattr(a, "value", None) is not None:
+            tgts = a.targets if isinstance(a, ast.Assign) else [a.target]
+            for t in tgts:
+                if isinstance(t, ast.Name) and t.id == var:
+                    out = _dict_keys(a.value)
+                elif isinstance(t, ast.Subscript) and isinstance(t.value, ast.Name) and t.value.id == var:
+                    if isinstance(t.slice, ast.Constant):
+                        out = {st | ({t.slice.value} if t.slice.value in PRECOND else set()) for st in cur}
+                    else:
+                        out = {st | {"?"} for st in cur}
+        elif node.kind == "call" and isinstance(a, ast.Call) and isinstance(a.func, ast.Attribute) \
+                and isinstance(a.func.value, ast.Name) and a.func.value.id == var and a.func.attr in ("update", "setdefault", "pop", "clear", "popitem"):
+            out = {st | {"?"} for st in cur}
+        if n == at:
+            continue
+        for d, lab in g.succ[n]:
+            if lab not in NORMAL:
+                continue
+            old = state.get(d, set())
+            new = old | out
+            if new != old or d not in state:
+                state[d] = new
+                work.append(d)
+    return state.get(at, set())
+
+
 def r3(ctx: Ctx) -> None:
     ctx.rule("C08.R3", "conditional everywhere: on supports_cas branches the pointer is written only by write_file_cas; "
              "write_file_cas sets exactly one precondition on every path, maps precondition failures to CASConflictError, "
@@ -212,22 +271,17 @@ def r3(ctx: Ctx) -> None:
         call = p.ast
         assert isinstance(call, ast.Call)
         star = [k.value for k in call.keywords if k.arg is None]
-        direct = {k.arg for k in call.keywords if k.arg in ("IfMatch", "IfNoneMatch")}
+        direct = frozenset(k.arg for k in call.keywords if k.arg in PRECOND)
         ok = False
         detail = ""
         if star and isinstance(star[0], ast.Name):
-            kv = star[0].id
-            sets = [n for n in g.nodes if n.kind == "stmt" and isinstance(n.ast, ast.Assign)
-                    and isinstance(n.ast.targets[0], ast.Subscript) and dotted(n.ast.targets[0].value) == kv
-                    and isinstance(n.ast.targets[0].slice, ast.Constant) and n.ast.targets[0].slice.value in ("IfMatch", "IfNoneMatch")]
-            # every path entry -> put passes exactly one of them
-            w0 = find_path(g, g.entry, [p.id], avoid=[s.id for s in sets], labels=NORMAL)
-            two = any(find_path(g, a.id, [b.id], labels=NORMAL) for a in sets for b in sets if a is not b)
-            ok = bool(sets) and w0 is None and not two
-            detail = f"preconditions set at lines {[s.lineno for s in sets]}; unconditioned path: {w0 is not None}; both on one path: {two}"
-        elif direct:
+            states = _kwargs_states(ctx, cas, star[0].id, p.id)
+            states = {st | direct for st in states}
+            ok = bool(states) and all(len(st) == 1 and "?" not in st for st in states)
+            detail = f"possible precondition sets reaching the PUT through **{star[0].id}: {sorted(sorted(x) for x in states)}"
+        elif direct and not star:
             ok = len(direct) == 1
-            detail = f"direct keyword {direct}"
+            detail = f"direct keyword {sorted(direct)}"
         ctx.ob("C08.R3", cas, "exactly one of IfNoneMatch / IfMatch on every path", p, ok, detail)
     hs = handler_nodes(ctx, cas)
     okh = False
@@ -235,8 +289,10 @@ def r3(ctx: Ctx) -> None:
         ex = handler_exits(ctx, cas, hn)
         raised = {r.raised for r in ex["raise"]}
         if "CASConflictError" in raised and "reraise" in raised and not ex["fallthrough"] and not ex["return"]:
-            codes = [c.value for c in ast.walk(hn.stmt) if isinstance(c, ast.Constant) and isinstance(c.value, str)]
-            okh = "PreconditionFailed" in codes and "412" in codes
+            for _b, cs, mr, orr, _mo, _oo in code_branches(ctx, cas, hn):
+                if "PreconditionFailed" in cs and "412" in cs and mr == {"CASConflictError"} and "reraise" in orr \
+                        and "CASConflictError" not in orr:
+                    okh = True
     ctx.ob("C08.R3", cas, "precondition failure -> CASConflictError, everything else re-raised", hs[0] if hs else None, okh,
            "412 / PreconditionFailed / ConditionalRequestConflict are clean conflicts; other errors stay errors (ambiguous)")
     retry = [n for n in g.calls() if any(t.name in ("with_s3_retry", "retry_with_backoff") for t in ctx.eff.callees(cas, n))]
@@ -247,9 +303,14 @@ def r3(ctx: Ctx) -> None:
     rf = ctx.fn("storage_backend.S3StorageBackend.read_file_with_etag")
     ok = False
     for nf in rf.nested.values():
-        for r in [n for n in ast.walk(nf.node) if isinstance(n, ast.Return) and isinstance(n.value, ast.Tuple) and len(n.value.elts) == 2]:
-            a, b = r.value.elts  # type: ignore[union-attr]
-            ra = {x.id for x in ast.walk(a) if isinstance(x, ast.Name)}
-            rb = {x.id for x in ast.walk(b) if isinstance(x, ast.Name)}
-            ok = bool(ra & rb) and "ETag" in norm_text(b)
+        ng = ctx.cfg(nf)
+        nsl = ctx.slicer(nf)
+        rets = [n for n in ng.nodes if n.kind == "return" and n.id in ng.reachable() and isinstance(n.ast, ast.Return)
+                and isinstance(n.ast.value, ast.Tuple) and len(n.ast.value.elts) == 2]
+        for r in rets:
+            a, b = r.ast.value.elts  # type: ignore[union-attr]
+            oa, ob_ = nsl.origins(a, r.id), nsl.origins(b, r.id)
+            gets_a = {c for c in oa["calls"] if isinstance(c.func, ast.Attribute) and c.func.attr == "get_object"}
+            gets_b = {c for c in ob_["calls"] if isinstance(c.func, ast.Attribute) and c.func.attr == "get_object"}
+            ok = bool(gets_a) and gets_a == gets_b and "ETag" in ob_["consts"] and "Body" in oa["consts"]
     ctx.ob("C08.R3", rf, "body and ETag come from one GET response", None, ok, "the ETag describes exactly the bytes returned")
